@@ -127,7 +127,7 @@ def h_convert(ctx, fmt="wfn", shells="sp", conv="own", twin=False, ecp=False):
     mods = rt._fmt_modules(fmt)
     heavy = fmt in ("molden", "molekel")
     convname = {"own": {"fchk": "fchk", "molden": "molden", "molekel": "molden", "wfn": "wfn", "wfx": "wfn"}[fmt]}.get(conv, conv)
-    mo_kind, occ = ctx.choice([("restricted", "closed"), ("restricted", "rohf"), ("unrestricted", "uhf"),
+    mo_kind, occ = ctx.choice([("restricted", "closed"), ("restricted", "rohf"), ("unrestricted", "uhf-odd"),
                                ("restricted", "aminusb"), ("restricted", "aminusb-zero"), ("restricted", "hole")],
                               label="orbitals")
     allow = ctx.choice([False, True], label="allow_changes")
